@@ -140,6 +140,9 @@ M: List[Tuple[str, str, str, str, str]] = [
      "text_(self.request.header(b'user-agent'), errors='replace')", "text_(self.request.header(b'user-agent'))"),
     ('c10-revert-threaded-flush-oserror', 'C10', 'proxy/http/handler.py',
      "        except OSError:\n            # Client is gone (reset, broken pipe, ...).", "        except BrokenPipeError:\n            # Client is gone (reset, broken pipe, ...)."),
+    ('c11-revert-subject-escaping', 'C11', 'proxy/http/proxy/server.py',
+     "                    upstream_subject.get(keys[key]).replace('\\\\', '\\\\\\\\')\n                    .replace('/', '\\\\/').replace('+', '\\\\+'),",
+     "                    upstream_subject.get(keys[key]),"),
     # ---- C14 ---------------------------------------------------------------
     ('c14-default-port-8080', 'C14', 'proxy/http/parser/parser.py',
      "                    if self._url.port is not None else DEFAULT_HTTP_PORT",
